@@ -264,6 +264,20 @@ func runConcurrent(c *Case, r *mon.Rec, rng *rand.Rand, payload []byte) {
 		return
 	}
 	snap := append([]byte{}, frame...)
+	// half of the runs read through a view the caller configured with a default order of its own (all goroutines share it)
+	cfgOrd := packet.ByteOrder(0)
+	if c.Seed%2 == 0 {
+		cfgOrd = packet.ByteOrder(regref.Orders[1+rng.Intn(len(regref.Orders)-1)])
+		view.WithByteOrder(cfgOrd)
+		r.Cover("concurrent", "configured-view")
+	}
+	fresh0 := func() *packet.Registers {
+		_, f, _, _ := parsed(c, payload)
+		if cfgOrd != 0 {
+			f.WithByteOrder(cfgOrd)
+		}
+		return f
+	}
 	// call set: long strings over the whole window plus numeric reads inside it
 	type want struct {
 		op  Op
@@ -281,8 +295,7 @@ func runConcurrent(c *Case, r *mon.Rec, rng *rand.Rand, payload []byte) {
 		if k%3 == 0 && strV >= 0 {
 			op.V = strV
 		}
-		_, fresh, _, _ := parsed(c, payload)
-		res, _ := callV(op.V, fresh, op.Addr)
+		res, _ := callV(op.V, fresh0(), op.Addr)
 		calls = append(calls, want{op, res})
 	}
 	long := func(v *packet.Registers) (string, error) {
@@ -292,8 +305,7 @@ func runConcurrent(c *Case, r *mon.Rec, rng *rand.Rand, payload []byte) {
 		}
 		return v.String(uint16(c.Start), uint8(n))
 	}
-	_, freshL, _, _ := parsed(c, payload)
-	longWant, longErr := long(freshL)
+	longWant, longErr := long(fresh0())
 	var wg sync.WaitGroup
 	var mu sync.Mutex
 	var bad []string
@@ -474,9 +486,38 @@ func runExtract(c *Case, r *mon.Rec, rng *rand.Rand, payload []byte) {
 		}
 		alone2[f.Name] = show(v, e)
 	}
-	_, vs, _, err := parsed(c, payload)
+	fr2, vs, _, err := parsed(c, payload)
 	if err == nil {
 		vs.WithByteOrder(ord)
+		// the raw accessors hand out byte slices: whatever the caller does with them afterwards (here: overwrite them)
+		// stays the caller's business - the response keeps its bytes. On a configured view, with the argument 0 ("use the
+		// default") as well as with explicit orders
+		snap2 := append([]byte{}, fr2...)
+		for k := 0; k < c.Regs; k++ {
+			a := uint16(c.Start + k)
+			for _, o := range []packet.ByteOrder{0, ord, packet.ByteOrder(regref.Orders[rng.Intn(len(regref.Orders))])} {
+				for _, get := range []func() ([]byte, error){
+					func() ([]byte, error) { return vs.Register(a) },
+					func() ([]byte, error) { return vs.DoubleRegister(a, o) },
+					func() ([]byte, error) { return vs.QuadRegister(a, o) },
+				} {
+					var b []byte
+					if p, _ := mon.Catch(func() { b, _ = get() }); p {
+						continue
+					}
+					for i := range b {
+						b[i] ^= 0xA5
+					}
+					b = append(b, 0xEE, 0xEE) // and grow it: must not run into the payload either
+					_ = b
+				}
+			}
+		}
+		r.Eval(c.Regs)
+		if !bytes.Equal(fr2, snap2) {
+			r.Violate(c, "payload-mutated", mon.Attrs{"accessor": "raw-accessor-result-overwritten"}, fmt.Sprintf("view configured with WithByteOrder(%d): after the byte slices returned by Register/DoubleRegister/QuadRegister were overwritten by their caller the response buffer reads % x, it was % x", ord, fr2[:min(len(fr2), 40)], snap2[:min(len(snap2), 40)]))
+			copy(fr2, snap2)
+		}
 		for pass := 0; pass < 2; pass++ {
 			for k := range fields {
 				f := fields[k]
